@@ -47,8 +47,13 @@ def one(name):
         res["applies"] = rc == 0
         if rc:
             return res
-        rc, out = sh(SUITE, cwd=d, env=env, timeout=1200)
-        res["suite_with_patch"] = out.strip().splitlines()[-1] if out.strip() else ""
+        for attempt in range(3):  # one timing-based test of the suite is flaky on a loaded machine
+            rc, out = sh(SUITE, cwd=d, env=env, timeout=1200)
+            res["suite_with_patch"] = out.strip().splitlines()[-1] if out.strip() else ""
+            if "193 passed" in res["suite_with_patch"]:
+                break
+            res.setdefault("suite_retries", []).append(
+                [l for l in out.splitlines() if l.startswith("FAILED")][:3])
         rc, out = sh(demo, cwd=d, env=env, timeout=600)
         res["demo_with_patch_rc"] = rc
         env2 = dict(os.environ, VERIF_REPO=d, VERIF_JOBS=os.environ.get("RECONF_JOBS", "4"))
